@@ -68,6 +68,26 @@ def search_plan(seed):
     return [("C09", seed + 500 + k, 2000, []) for k in range(3)]
 
 
+def _pars(line):
+    head, _, flags = line.partition(" | ")
+    return head.split("\\n\\n"), flags
+
+
+def compare(c):
+    """string equality, except that two transactions of one day which transaction.Compare calls equal (same date,
+    description and postings: they can only differ in their @performance annotation) may appear in either order:
+    Go sorts a day's transactions with an unstable sort (pdqsort beyond 12 elements), the model with a stable one
+    (DESIGN section 9); found by a thorough run, 4 cases in 128 000"""
+    if c.model == c.observed:
+        return True
+    if c.op != "C09.print" or not (c.observed or "").startswith("OK ") or not (c.model or "").startswith("OK "):
+        return False
+    po, fo = _pars(c.observed)
+    pm, fm = _pars(c.model)
+    key = lambda par: "\\n".join(l for l in par.split("\\n") if not l.startswith("@performance"))
+    return fo == fm and sorted(po) == sorted(pm) and [key(x) for x in po] == [key(x) for x in pm]
+
+
 def nontrivial(c):
     if c.op != "C09.print":
         return c.op == "C09.model" and "[" in (c.observed or "")
